@@ -1019,7 +1019,9 @@ fn main() {
     );
     let exe = args.driver_exe("drv_oeh");
     let thorough = args.thorough();
-    let mut rng = Rng::new(args.seed);
+    // `Rng::new(s)` and `Rng::new(s + 1)` are the same SplitMix stream one step apart, and
+    // variable-length case generators re-synchronise on it; fork to an unrelated position.
+    let mut rng = Rng::new(args.seed).fork();
 
     // 1. corpus / replay
     let mut files: Vec<std::path::PathBuf> = vec![];
